@@ -93,6 +93,56 @@ func copyAlloc(a *ssa.Alloc) (bool, string) {
 	return false, ""
 }
 
+// ruleStateOnlyForVerifiedFrames: in the single-frame decoder every call that
+// can change the Handler's week state is made only after the CRC check has
+// succeeded (a rejected or corrupted frame must not disturb later times).
+func ruleStateOnlyForVerifiedFrames(c *Ctx, rule string) {
+	P := c.P
+	H := P.Named("rtcm/handler", "Handler")
+	getMsg := P.Func("rtcm/handler", "(*Handler).GetMessage")
+	crc := P.Func("rtcm/handler", "CheckCRC")
+	if H == nil || getMsg == nil || crc == nil {
+		c.Unresolved(rule, "rtcm/handler Handler / GetMessage / CheckCRC")
+		return
+	}
+	mut := paramMutators(P, H)
+	n := 0
+	eachInstr(getMsg, func(ins ssa.Instruction) {
+		ci, ok := ins.(ssa.CallInstruction)
+		if !ok {
+			return
+		}
+		callee := ci.Common().StaticCallee()
+		if callee == nil || len(mut[callee]) == 0 {
+			return
+		}
+		n++
+		verified := false
+		for _, ft := range dominatingFacts(ins.Block()) {
+			bo, ok := ft.Cond.(*ssa.BinOp)
+			if !ok || (bo.Op != token.EQL && bo.Op != token.NEQ) {
+				continue
+			}
+			x, y := bo.X, bo.Y
+			if isNilConst(x) {
+				x, y = y, x
+			}
+			call, isCall := x.(*ssa.Call)
+			if !isCall || !isNilConst(y) || call.Call.StaticCallee() != crc {
+				continue
+			}
+			if (bo.Op == token.EQL) == ft.Val {
+				verified = true
+			}
+		}
+		c.Check(verified, rule, "state-change-after-crc("+callee.Name()+")", ins.Pos(), "the week state can change only for a frame whose CRC has been verified",
+			"the decoder calls "+callee.Name()+", which updates the handler's week state, on a path where the CRC check has not succeeded: a corrupted or rejected frame shifts the times of later messages")
+	})
+	if n == 0 {
+		c.Fail(rule, "state-change-after-crc", getMsg.Pos(), "unresolved", "the decoder makes no call that updates the handler's week state")
+	}
+}
+
 func checkC06(c *Ctx) {
 	c.Explanation = "Decides structural necessary conditions of the week bookkeeping: (S1) state persistence — on every call path from the single-frame decoder to a store into a Handler time field the Handler travels by pointer; no local copy of a Handler (value receiver / by-value parameter / dereferenced copy) has its address handed to a function that mutates Handler fields, so no rollover update is lost; (S2) constellation separation — each converter reads and writes only the Handler fields of its own constellation; (S3) the message-type dispatch tables of the time converter and of the start-of-week lookup map {1074,1077}->GPS, {1084,1087}->Glonass, {1094,1097}->Galileo, {1124,1127}->Beidou and agree with each other (complete type domain); (S4) no Handler state is written on a path that returns a range error; (S5) the week advances only under a strict comparison (previous > current; Glonass day < previous day) and by exactly AddDate(0,0,7); (S6) the offset and limit constants have the required values (-18 s, -4 s, -3 h, 7*86400000-1, 6<<27+86400000-1, day shift 27, 24 h limit with >=), range checks use the required operators, times are week start + timestamp milliseconds, and the start-of-week display is computed after the conversion."
 	c.NotDecided = "calendar arithmetic of time.Time; that the structural conditions are sufficient for every interleaving (numerical end-to-end equality is outside static analysis); the initial week derived from the start time (C17)."
@@ -275,6 +325,7 @@ func checkC06(c *Ctx) {
 
 	// ---- S5 rollover comparison
 	checkRollover(c, conv)
+	ruleGlonassResultShape(c, "C06-S5")
 
 	// ---- S6 constants and ordering
 	checkTimeConstants(c)
@@ -302,6 +353,7 @@ func checkC06(c *Ctx) {
 			"the start-of-week text is produced before the conversion: it shows the previous week at a rollover")
 	}
 	checkSeedTimeBase(c, "C06-S7")
+	ruleStateOnlyForVerifiedFrames(c, "C06-S4")
 	c.MinInstances("C06-S1", 6)
 	c.MinInstances("C06-S2", 16)
 	c.MinInstances("C06-S3", 13)
@@ -478,6 +530,66 @@ func checkRollover(c *Ctx, conv map[string]*ssa.Function) {
 	if gfound != 1 {
 		c.Fail("C06-S5", "rollover-strict(glonass):site", g.Pos(), "refuted", fmt.Sprintf("expected exactly one AddDate(0,0,7) store in the Glonass converter, found %d", gfound))
 	}
+}
+
+// ruleGlonassResultShape: every successful result of the Glonass converter is
+// <stored start of Glonass week>.AddDate(0,0,day).Add(ms), and the converter
+// shifts dates by nothing else than the one-week advance.
+func ruleGlonassResultShape(c *Ctx, rule string) {
+	P := c.P
+	var g *ssa.Function
+	if disp, _ := P.Method("rtcm/handler", "Handler", "getTimeFromTimeStamp"); disp != nil {
+		eachInstr(disp, func(ins ssa.Instruction) {
+			if f := staticCallee(ins); f != nil && P.InModule(f) && f.Signature.Recv() != nil && strings.Contains(strings.ToLower(f.Name()), "glonass") {
+				g = f
+			}
+		})
+	}
+	if g == nil {
+		c.Unresolved(rule, "the Glonass converter called by the time dispatcher")
+		return
+	}
+	addDate := func(v ssa.Value) (*ssa.Call, bool) {
+		call, ok := v.(*ssa.Call)
+		if !ok || call.Call.StaticCallee() == nil || calleeFullName(call.Call.StaticCallee()) != "(time.Time).AddDate" {
+			return nil, false
+		}
+		return call, true
+	}
+	n := 0
+	for _, r := range returnsOf(g) {
+		if len(r.Results) != 2 || !isNilConst(r.Results[1]) {
+			continue
+		}
+		n++
+		good := false
+		if add, ok := r.Results[0].(*ssa.Call); ok && add.Call.StaticCallee() != nil && calleeFullName(add.Call.StaticCallee()) == "(time.Time).Add" {
+			if ad, ok := addDate(add.Call.Args[0]); ok {
+				y, ok1 := constInt(ad.Call.Args[1])
+				m, ok2 := constInt(ad.Call.Args[2])
+				_, dayConst := constInt(ad.Call.Args[3])
+				fv, _ := loadedField(ad.Call.Args[0])
+				if ok1 && ok2 && y == 0 && m == 0 && !dayConst && fv != nil && strings.Contains(strings.ToLower(fv.Name()), "startofglonass") {
+					good = true
+				}
+			}
+		}
+		c.Check(good, rule, "glonass:result=week+day+ms", r.Pos(), "the reported time is the stored start of the Glonass week plus the day and millisecond offsets of the timestamp",
+			"a Glonass time is computed from something other than the stored start of week + day + milliseconds (e.g. shifted by a week in a special case): the reported time depends on the handler's history or start time")
+	}
+	if n == 0 {
+		c.Fail(rule, "glonass:result=week+day+ms", g.Pos(), "unresolved", "no successful return in the Glonass converter")
+	}
+	// no other date shifts
+	eachInstr(g, func(ins ssa.Instruction) {
+		ad, ok := addDate(valueOf(ins))
+		if !ok {
+			return
+		}
+		if d, isC := constInt(ad.Call.Args[3]); isC && d != 7 {
+			c.Fail(rule, "glonass:date-shift", ins.Pos(), "refuted", fmt.Sprintf("the Glonass converter shifts a date by the constant %d days: only the one-week advance at a rollover is part of the conversion", d))
+		}
+	})
 }
 
 func valueOf(ins ssa.Instruction) ssa.Value {
